@@ -47,6 +47,7 @@ type World struct {
 	PullAPIs       int // pulls through bug.Pull / identity.Pull
 	StaleClocks    int // restarts with lowered clock files
 	ForeignIdEdits int // edits of an identity by a replica that does not own it (identities may diverge)
+	Moves          int // remotes replaced by a new empty repository (remote set-url on every replica)
 	Replicas       []*Replica
 	AuthorIds      []string
 	Seed           uint64
@@ -312,6 +313,62 @@ func GenActionsR(nReplicas, nRemotes, minLen, maxLen, nFiles int) *rapid.Generat
 	})
 }
 
+// fetchDiagnosis lists, for a failed fetch, the remote-tracking references that the remote's references do not descend from.
+func (w *World) fetchDiagnosis(r *Replica, remoteName string) string {
+	remote, err := w.OpenRemoteNamed(remoteName)
+	if err != nil {
+		return ""
+	}
+	defer remote.Close()
+	out := ""
+	for _, ns := range []string{"identities", "bugs"} {
+		for ref, h := range refsUnder(remote, "refs/"+ns+"/") {
+			tr := "refs/remotes/" + remoteName + "/" + strings.TrimPrefix(ref, "refs/")
+			th, err := r.Repo.ResolveRef(tr)
+			if err != nil || string(th) == h {
+				continue
+			}
+			anc := false
+			if commits, err := remote.ListCommits(ref); err == nil {
+				for _, c := range commits {
+					anc = anc || c == th
+				}
+			}
+			if !anc {
+				out += fmt.Sprintf("\n%s: the remote is at %s, the replica's remote-tracking reference at %s, which the remote's history does not contain", ref, h[:8], string(th)[:8])
+			}
+		}
+	}
+	return out
+}
+
+// emptyRemote: after a move the new place holds nothing until somebody pushes; fetching from it is an error for
+// go-git, which git-bug hands on. A pull that fails for that reason merged nothing and lost nothing.
+func (w *World) emptyRemote(err error) bool {
+	return w.Moves > 0 && err != nil && strings.Contains(err.Error(), "remote repository is empty")
+}
+
+// moveRemote: the project moves its hosting. A new, empty bare repository takes the place of the remote called
+// name; every user re-points that remote with stock git (git remote set-url). Their remote-tracking references
+// still describe the old place.
+func (w *World) moveRemote(name string) error {
+	w.Moves++
+	p := filepath.Join(w.Dir, fmt.Sprintf("remote-%s-moved%d", name, w.Moves))
+	if _, err := repository.InitBareGoGitRepo(p, "git-bug"); err != nil {
+		return err
+	}
+	for _, r := range w.Replicas {
+		if res := RunGit(r.Path, "remote", "set-url", name, p); res.Code != 0 {
+			return fmt.Errorf("git remote set-url: %s", res.Out)
+		}
+	}
+	w.RemotePaths[name] = p
+	if name == "origin" {
+		w.RemotePath = p
+	}
+	return nil
+}
+
 // fileContent is the content of pool file i.
 func (w *World) fileContent(i int) []byte {
 	return []byte(fmt.Sprintf("attachment %d of world %d\n\x00\x01binary", i, w.Seed))
@@ -383,6 +440,9 @@ func (w *World) Exec(a Action) error {
 		if _, err = identity.Fetch(r.Repo, w.remoteName(a.Rem)); err == nil {
 			_, err = bug.Fetch(r.Repo, w.remoteName(a.Rem))
 		}
+		if err != nil && w.emptyRemote(err) {
+			err = nil
+		}
 		if err != nil {
 			err = &ExecError{"fetch/" + Normalize(err.Error()), err.Error()}
 		}
@@ -390,6 +450,13 @@ func (w *World) Exec(a Action) error {
 		err = w.pullAPI(r, w.remoteName(a.Rem))
 	case "staleclock":
 		err = w.staleClocks(r, a.N)
+	case "moveremote":
+		// everybody is in step with the old place first (a project announces its move): afterwards every head that
+		// is published descends from what the remote-tracking references still say, so that git-bug's
+		// fast-forward-only fetch keeps working; what is under test is that everything reaches the new place
+		if _, err = w.SyncToQuiescence(); err == nil {
+			err = w.moveRemote(w.remoteName(a.Rem))
+		}
 	default:
 		panic("unknown action " + a.Kind)
 	}
@@ -550,6 +617,9 @@ func (w *World) gc(r *Replica) error {
 // return without error, everything the remote-tracking refs hold is merged into the local bugs.
 func (w *World) pullAPI(r *Replica, remoteName string) error {
 	if err := identity.Pull(r.Repo, remoteName); err != nil {
+		if w.emptyRemote(err) {
+			return nil
+		}
 		if w.ForeignIdEdits > 0 && strings.Contains(err.Error(), "merge failure") {
 			return nil // a diverged identity is refused and the packaged pull stops there: legal
 		}
@@ -716,7 +786,10 @@ func (w *World) PullFrom(r *Replica, remoteName string) (*PullReport, error) {
 	rep.PreRefs = refsUnder(r.Repo, "refs/bugs/")
 
 	if _, err := identity.Fetch(r.Repo, remoteName); err != nil {
-		return nil, &ExecError{"fetch-identities/" + Normalize(err.Error()), err.Error()}
+		if w.emptyRemote(err) {
+			return rep, nil // nothing there yet: git-bug reports go-git's "remote repository is empty", nothing is merged
+		}
+		return nil, &ExecError{"fetch-identities/" + Normalize(err.Error()), err.Error() + w.fetchDiagnosis(r, remoteName)}
 	}
 	rep.IdRemote = identityChains(r.Repo, "refs/remotes/"+remoteName+"/identities/")
 	for res := range identity.MergeAll(r.Repo, remoteName) {
@@ -799,6 +872,9 @@ func (w *World) allRefs() string {
 	var sb strings.Builder
 	dump := func(name string, repo repository.RepoData) {
 		m := refsUnder(repo, "refs/bugs/")
+		for k, v := range refsUnder(repo, "refs/identities/") { // identities travel with the same pushes and pulls
+			m[k] = v
+		}
 		keys := make([]string, 0, len(m))
 		for k := range m {
 			keys = append(keys, k)
